@@ -250,7 +250,7 @@ def run(ctx):
     ]
     ctx.assumptions = [
         "int / long index arithmetic does not overflow: element counts of every array < 2^31 "
-        "(stated as hypotheses of the *_no_int_overflow theorems)",
+        "(the model computes indices in unbounded integers)",
         "alloca(4*8*tmax) in _spearman_corr does not exhaust the stack (not modelled)",
     ]
     ctx.proofs()
